@@ -11,6 +11,7 @@ B: random float matrices / pairs / triples: axioms and inequalities measured
 import math
 
 import numpy as np
+import quaternion
 from scipy import sparse
 
 from .. import par
@@ -223,6 +224,7 @@ def run(ctx, replay=None):
         ctx.case(("spectral", m, n))
         for fn, clause, cls, detail in fails:
             ctx.fail(fn, clause, cls, detail)
+    rngh0 = np.random.default_rng(ctx.seed + 76)
     # unknown ord values are rejected; dense-only norms reject sparse input
     A = q_from_float(np.ones((2, 2, 4)))
     for bad in ("nuc", 3, -1, "2", "one", 0):
@@ -232,6 +234,29 @@ def run(ctx, replay=None):
             ctx.fail("matrix_norm", "UnknownOrdRejected", "ord=%r" % (bad,), {"ord": repr(bad), "returned": float(v)})
         except Exception:
             pass
+    # matrices with a zero-length axis (what the library's own null-space routines return for a full-rank matrix, and every
+    # product / transpose formed from that): an empty sum of moduli, no singular values - every norm is 0, none raises
+    A3 = q_from_float(rngh0.standard_normal((4, 3, 4)))
+    N_ = u.quat_null_space(A3, side="right")
+    empties = [("null space of a full-rank 4x3 matrix", N_), ("its Hermitian transpose", u.quat_hermitian(N_)),
+               ("3x0", quaternion.as_quat_array(np.zeros((3, 0, 4)))), ("0x4", quaternion.as_quat_array(np.zeros((0, 4, 4)))), ("0x0", quaternion.as_quat_array(np.zeros((0, 0, 4))))]
+    for label, Em in empties:
+        if 0 not in np.shape(Em):
+            continue                      # (the null space was not empty: nothing to check here)
+        for name, f_, clause in (("matrix_norm(1)", lambda: u.matrix_norm(Em, 1), "OneNormIsMaxColumnSum"), ("induced_matrix_norm_1", lambda: u.induced_matrix_norm_1(Em), "OneNormIsMaxColumnSum"),
+                                 ("matrix_norm(inf)", lambda: u.matrix_norm(Em, np.inf), "InfNormIsMaxRowSum"), ("matrix_norm('inf')", lambda: u.matrix_norm(Em, "inf"), "InfNormIsMaxRowSum"),
+                                 ("induced_matrix_norm_inf", lambda: u.induced_matrix_norm_inf(Em), "InfNormIsMaxRowSum"),
+                                 ("matrix_norm(2)", lambda: u.matrix_norm(Em, 2), "TwoNormIsLargestSingularValue"), ("spectral_norm_2", lambda: u.spectral_norm_2(Em), "TwoNormIsLargestSingularValue"),
+                                 ("matrix_norm('fro')", lambda: u.matrix_norm(Em, "fro"), "FroIsRootSumSquares"), ("matrix_norm(None)", lambda: u.matrix_norm(Em), "FroIsRootSumSquares"),
+                                 ("quat_frobenius_norm.dense", lambda: u.quat_frobenius_norm(Em), "FroIsRootSumSquares"), ("normQ", lambda: u.normQ(Em), "FroIsRootSumSquares")):
+            ctx.replays += 1
+            ctx.case(("empty", label, name))
+            try:
+                v = float(f_())
+                if v != 0.0:
+                    ctx.fail(name, clause, "zero-length-axis", {"matrix": label, "shape": list(np.shape(Em)), "returned": v, "want": 0.0})
+            except Exception as e_:
+                ctx.fail(name, clause, "zero-length-axis", {"matrix": label, "shape": list(np.shape(Em)), "raised": repr(e_), "want": 0.0})
     # call history with the SAME data in different shapes (same bytes, different matrix): a result may not be remembered
     # under a key that ignores the shape; also equal shapes with different values, back to back in one process
     rngh = np.random.default_rng(ctx.seed + 77)
